@@ -104,6 +104,14 @@ SCRIPTS_T9 = [[L("job", "server", "srv_alt")], [L("up", "network", "net_alt")], 
               [L("job", "server", "srv_alt"), L("job2", "server", "srv_alt")],
               [L("up", "country", "de"), L("up2", "country", "de")],
               [L("up", "network", "net_alt"), L("up2", "network", "net_alt"), num("net_alt", "bandwidth_energy_intensity")]]
+# two structural changes in one update where the second re-points an object that the first one has just put into the
+# recomputation chain (and the reverse orders): what the second change newly links must be recomputed too
+SCRIPTS_T9_CHAINED = [[LA("step2", "jobs", ["job2", "job"]), L("job", "server", "srv_alt")],
+                      [L("job", "server", "srv_alt"), LA("step2", "jobs", ["job2", "job"])],
+                      [LA("up", "devices", ["dev_alt"]), L("job", "server", "srv_alt")],
+                      [L("up", "usage_journey", "uj_alt"), L("job_alt", "server", "srv_alt")],
+                      [LA("uj", "uj_steps", ["step", "step3"]), L("job3", "server", "srv_alt"), L("srv_alt", "storage", "st_free")],
+                      [L("up", "network", "net_alt"), L("up", "country", "de"), LA("up", "devices", ["dev", "dev_alt"])]]
 SCRIPTS_T5 = [[num("srv", "ram")], [dict(k="fixed", obj="srv", val="sym")], [num("job2", "compute_needed")]]
 
 
@@ -115,6 +123,8 @@ def plan(tier, seed):
         for d in ("first", "last", "before", "after", "naive"):
             p.append(("sim", dict(skeleton="T1", script=sc, date=d, toggles=["set", "reset", "set", "reset"][:2 + 2 * (d == "first")])))
     for sc in SCRIPTS_T9:
+        p.append(("sim", dict(skeleton="T9", script=sc, date="interior", n=2, toggles=["set", "reset"])))
+    for sc in SCRIPTS_T9_CHAINED[:3]:
         p.append(("sim", dict(skeleton="T9", script=sc, date="interior", n=2, toggles=["set", "reset"])))
     for sc in SCRIPTS_T5:
         p.append(("sim", dict(skeleton="T5", script=sc, date="first", n=2, toggles=["reset", "set", "reset"])))
